@@ -1302,6 +1302,8 @@ def fold_new_constants(prog) -> int:
 
 class _Spellings(ast.NodeTransformer):
     """dict(a=1, b=2) -> {'a': 1, 'b': 2};  dict() -> {};  list() -> [];  tuple() -> ()"""
+    n_aug = 0
+
     def visit_Call(self, node):
         self.generic_visit(node)
         if isinstance(node.func, ast.Name) and not node.args:
@@ -1318,6 +1320,21 @@ class _Spellings(ast.NodeTransformer):
                     ast.copy_location(x, node)
                 if hasattr(node, "_module") and not hasattr(x, "_module"):
                     x._module = node._module
+            return new
+        return node
+
+
+    def visit_Assign(self, node):
+        """x = x + 1  ->  x += 1   (numeric constant addend only: for numbers the two are the same statement; sequences cannot take it)"""
+        self.generic_visit(node)
+        v = node.value
+        if len(node.targets) == 1 and isinstance(node.targets[0], (ast.Name, ast.Attribute)) and isinstance(v, ast.BinOp) and isinstance(v.op, (ast.Add, ast.Sub)) \
+                and isinstance(v.right, ast.Constant) and type(v.right.value) in (int, float) and ast.dump(_load_form(node.targets[0])) == ast.dump(v.left):
+            new = ast.AugAssign(target=node.targets[0], op=v.op, value=v.right)
+            self.n_aug += 1
+            ast.copy_location(new, node)
+            if hasattr(node, "_module"):
+                new._module = node._module
             return new
         return node
 
@@ -1485,6 +1502,12 @@ def sink_attribute_targets(fn) -> int:
                 if len(defs) != 1:
                     continue
                 d = defs[0]
+                # a parameter already has a value before `d`, and a definition that reads the name reads that earlier value
+                a_ = getattr(fn, "args", None)
+                if a_ is not None and L in [p.arg for p in a_.posonlyargs + a_.args + a_.kwonlyargs + ([a_.vararg] if a_.vararg else []) + ([a_.kwarg] if a_.kwarg else [])]:
+                    continue
+                if any(isinstance(x, ast.Name) and x.id == L for x in ast.walk(blk[d].value)):
+                    continue
                 all_stores = [x for x in ast.walk(fn) if isinstance(x, ast.Name) and x.id == L and isinstance(x.ctx, (ast.Store, ast.Del))]
                 if len(all_stores) != 1:
                     continue
@@ -1728,6 +1751,9 @@ def run(prog) -> int:
                 if fuse_comprehension_loops(node):
                     changed += 1 + substitute_function(node)
                 changed += fuse_tuple_comprehensions(node)
+                sp = _Spellings()
+                sp.visit(node)
+                changed += sp.n_aug
                 changed += restore_temp_names(node)
         total += changed
         if changed:
